@@ -22,6 +22,12 @@ elif sid % 2 == 1:
     system, _ = systems.random_loop_system(rng, size=2 + (sid // 2) % 2, name=f'h{sid}', extra=True)
 else:
     system, _ = systems.random_chain_system(rng, ncomp=2 + sid % 3, with_alpha=False, name=f'h{sid}')
+if sid % 8 == 0 and len(system.components) >= 3:
+    # the same system assembled in two calls: the components inserted later keep the order in which they were given
+    from amisc import System
+    comps = list(system.components)
+    system = System(comps[0], name=f'h{sid}')
+    system.insert_components(comps[1:])
 np.random.seed(npseed)
 xs = system.sample_inputs(5)
 if sid % 8 == 4:      # candidate evaluations through a real thread pool: the result may not depend on how the futures happen to be ordered
@@ -33,6 +39,7 @@ else:
 xt = system.sample_inputs(4)
 pred = system.predict(xt)
 out = {
+    'component_order': [c.name for c in system.components],
     'components': [[[str(v) for v in c.inputs], [str(v) for v in c.outputs]] for c in system.components],
     'outputs_order': [str(v) for v in system.outputs()],
     'inputs_order': [str(v) for v in system.inputs()],
